@@ -1110,6 +1110,15 @@ class Interp:
             return v.thunk()
         return v
 
+    def ev_Yield(self, e: ast.Yield, fr: Frame) -> V:
+        # generators are run eagerly; yielded values go to the ghost output sequence
+        v = self.eval(e.value, fr) if e.value is not None else NONE
+        self.ghost.setdefault("yielded", []).append(v)
+        hook = self.ghost.get("on_yield")
+        if hook is not None:
+            hook(self, v)
+        return NONE
+
     def ev_Lambda(self, e: ast.Lambda, fr: Frame) -> V:
         raise Unsupported("lambda")
 
